@@ -9,7 +9,7 @@ From Coq Require Import String Ascii.
 From Coq Require Import List NArith ZArith Bool.
 Import ListNotations.
 From TarpcV Require Import Base Time TimeProofs Hops HopsProofs.
-From TarpcV Require Schema Wire WireProofs.
+From TarpcV Require Schema Wire WireProofs JsonText JsonTextProofs.
 Local Open Scope Z_scope.
 
 (* ---- MAIN THEOREM: the monitor accepts every run of the chain model ----
@@ -95,6 +95,24 @@ Theorem C07_json_deadline_omitted : forall t id body,
                            Wire.r_id := id; Wire.r_body := body |}).
 Proof. exact WireProofs.optional_deadline. Qed.
 
+(* the same as TEXT: a request written without a `deadline` member, with any whitespace between
+   the tokens, is parsed and understood, its deadline marked as omitted (then: now + 10 s) *)
+Theorem C07_json_text_deadline_omitted : forall sp t id body,
+  JsonText.all_ws sp = true -> Wire.trace_wf t -> (id < Wire.u64_max1)%N -> Wire.body_wf body ->
+  exists jt, Wire.json_enc Wire.trace_shape (Wire.trace_to_val t) = Some jt /\
+  JsonText.cm_of_json_text (JsonText.json_text_sp sp
+     (Wire.JObj [("Request"%string,
+             Wire.JObj [("context"%string, Wire.JObj [("trace_context"%string, jt)]);
+                        ("id"%string, Wire.JNum (Z.of_N id)); ("message"%string, Wire.JStr body)])]))
+  = Some (Wire.CRequest {| Wire.r_ctx := {| Wire.c_deadline := Wire.DlOmitted; Wire.c_trace := t |};
+                           Wire.r_id := id; Wire.r_body := body |}).
+Proof. exact JsonTextProofs.json_text_deadline_omitted. Qed.
+
+(* the Duration is carried exactly by the JSON TEXT as well *)
+Theorem C07_duration_exact_json_text : forall m, Wire.cm_wf m ->
+  exists t, JsonText.cm_json_text m = Some t /\ JsonText.cm_of_json_text t = Some m.
+Proof. exact JsonTextProofs.json_text_roundtrip_cm. Qed.
+
 (* ---- both codecs carry the Duration exactly (secs, nanos) ---- *)
 Theorem C07_duration_exact_bincode : forall m, Wire.cm_wf m -> Wire.explicit m ->
   exists bs, Wire.cm_bincode m = Some bs /\ Wire.cm_of_bincode bs = Some m.
@@ -125,5 +143,28 @@ Print Assumptions C07_deadline_chain.
 Print Assumptions C07_deadline_chain_late.
 Print Assumptions C07_default_deadline.
 Print Assumptions C07_json_deadline_omitted.
+Print Assumptions C07_json_text_deadline_omitted.
+Print Assumptions C07_duration_exact_json_text.
 Print Assumptions C07_duration_exact_bincode.
 Print Assumptions C07_duration_exact_json.
+
+(* ------------------------------------------------------------------------------------------ *)
+(* Composition of the client model and the server model (coq/Chain*.v); names are qualified. *)
+From TarpcV Require Client Server Chain ChainSpec ChainCtx ChainProofs.
+(* multi-hop clause over in-memory links (the Instant is carried verbatim), on the composition,
+   for every depth and every op list: the request yielded on ANY node carries the deadline of a
+   head call with the same body - also when that deadline has already passed *)
+Theorem C07_chain_deadline : forall (d : nat) (ops : list Chain.cop),
+  Chain.c07c_ok d ops (fst (Chain.run d ops)) = true.
+Proof. exact ChainCtx.chain_deadline. Qed.
+
+Example C07_chain_nonvacuous :
+  let ops := [Chain.HCall 10 7 true 5; Chain.HPoll 0; Chain.PollDispatch 0; Chain.PollRequests 0;
+              Chain.Advance 25; Chain.HandlerPoll 0 0 Server.SRun; Chain.PollDispatch 1;
+              Chain.PollRequests 1] in
+  nth 7 (fst (Chain.run 2 ops)) [] = [Chain.KYield 1 0 0 10 15 5; Chain.KSGauge 1 1 1]
+  /\ Chain.c07c_ok 2 ops (fst (Chain.run 2 ops)) = true
+  /\ Chain.c07c_ok 2 ops [[]; []; []; []; []; []; []; [Chain.KYield 1 0 0 25 15 5]] = false.
+Proof. vm_compute. repeat split; reflexivity. Qed.
+
+Print Assumptions C07_chain_deadline.
